@@ -94,6 +94,9 @@ def job_build(job) -> report.JobResult:
     # every character of the concrete ROOT PATH is sensitive as well: a symbolic path character equal to one of them must be that
     # character in the text the code sees (e.g. a path that starts with the root path), not an opaque placeholder
     eng.sensitive_chars = tuple(sorted(set(URL_SENSITIVE) | {ord(c) for c in root}))
+    if job.get("ipv6"):
+        # urlsplit validates a bracketed host as an IP address: the hex digit must be the real character in the text, not a placeholder
+        eng.sensitive_chars = tuple(sorted(set(eng.sensitive_chars) | {ord(c) for c in "0123456789abcdef"}))
     port_v = z3.Int("port")
     eng.solver.add(port_v >= 1, port_v <= 65535)
     if job.get("ipv6"):
